@@ -33,7 +33,7 @@ SHRINK_BUDGET = 300
 FAULT_OPS = ("gc", "drop_graph", "alloc")
 PROBES = ["cache_entry_read_by_engine_with_other_attrs", "weak_entry_purged_by_gc", "proper_subgraph_query",
           "filter_on_off_pair", "one_edit_neighbour_pair", "relabelled_pair", "hcount_asymmetric_pair",
-          "contained_and_mapped", "engine_shares_graph_with_other_engine", "call_relying_on_signature_defaults"]
+          "contained_and_mapped", "engine_shares_graph_with_other_engine", "call_relying_on_signature_defaults", "multi_component_pattern"]
 REAL = ["synkit.Graph.Matcher.graph_matcher.GraphMatcherEngine.isomorphic / get_mappings / _pre_check / _wl_hash_cached (class-level weak cache)",
         "synkit.Graph.Matcher.subgraph_matcher.SubgraphMatch.subgraph_isomorphism / is_subgraph",
         "synkit.Graph.Matcher.subgraph_matcher.SubgraphSearchEngine.find_subgraph_mappings (_quick_pre_filter on/off)",
@@ -84,7 +84,10 @@ def relabel_spec(sp: Dict[str, Any], rng) -> Dict[str, Any]:
     new = list(range(1, len(ids) + 1))
     rng.shuffle(new)
     off = rng.choice([0, 0, 7, 20])
-    m = {a: b + off for a, b in zip(ids, new)}
+    if rng.random() < 0.25:
+        m = {a: "n%d" % (b + off) for a, b in zip(ids, new)}   # node ids need not be integers
+    else:
+        m = {a: b + off for a, b in zip(ids, new)}
     nodes = [[m[n[0]], n[1], n[2], n[3]] for n in sp["nodes"]]
     edges = [[m[e[0]], m[e[1]], e[2]] if rng.random() < 0.5 else [m[e[1]], m[e[0]], e[2]] for e in sp["edges"]]
     rng.shuffle(nodes)
@@ -150,7 +153,7 @@ def build(sp: Dict[str, Any]) -> nx.Graph:
 
 def snapshot(g: nx.Graph) -> Any:
     return (sorted((n, sorted(d.items())) for n, d in g.nodes(data=True)),
-            sorted((min(u, v), max(u, v), sorted(d.items())) for u, v, d in g.edges(data=True)))
+            sorted((min(u, v, key=str), max(u, v, key=str), sorted(d.items())) for u, v, d in g.edges(data=True)))
 
 
 # ---------------------------------------------------------------------------
@@ -538,11 +541,32 @@ def _run(case: Dict[str, Any], sim: Sim, world: World) -> None:
                 if not gr.is_valid_map(rp, rh, dict(m), mode="mono", node_ok=_host_ge):
                     raise Violation(PROP, site, "embedding_invalid", op["strategy"], {"map": {str(a): str(b) for a, b in m.items()},
                                                                                        "host": h["spec"], "pattern": p["spec"]})
+            all_maps = list(gr.maps(rp, rh, mode="mono", node_ok=_host_ge, limit=6000))
+            truth_n = len(all_maps)
             if op["strategy"] == "all":
-                truth_n = sum(1 for _ in gr.maps(rp, rh, mode="mono", node_ok=_host_ge, limit=6000))
                 if truth_n < 5000 and len(res2[False]) != truth_n:
                     raise Violation(PROP, site, "verdict_wrong", "strategy=all", {"got": len(res2[False]), "reference": truth_n,
                                                                                   "host": h["spec"], "pattern": p["spec"]})
+            elif truth_n < 5000:
+                # component-aware strategies: at least one embedding whenever one exists that sends different
+                # pattern components into different host components (every embedding if the host has fewer components)
+                hcc = {n: i for i, c in enumerate(nx.connected_components(h["g"])) for n in c}
+                pccs = [set(c) for c in nx.connected_components(p["g"])]
+                if len(set(hcc.values())) < len(pccs):
+                    comp_ok = all_maps
+                else:
+                    comp_ok = []
+                    for m in all_maps:
+                        used = [{hcc[m[n]] for n in c} for c in pccs]
+                        if all(len(u) == 1 for u in used) and len({next(iter(u)) for u in used}) == len(pccs):
+                            comp_ok.append(m)
+                need = bool(comp_ok) or (op["strategy"] == "bt" and truth_n > 0)
+                if need and not res2[False]:
+                    raise Violation(PROP, site, "no_embedding_although_contained", "strategy=" + op["strategy"],
+                                    {"host": h["spec"], "pattern": p["spec"], "component_respecting_embeddings": len(comp_ok),
+                                     "embeddings": truth_n})
+                if len(pccs) > 1:
+                    sim.probe("multi_component_pattern")
             sim.state(("find", op["strategy"], bool(res2[False]), len(rp.nodes), len(rh.nodes)))
             sim.event("q_find", {"n": len(res2[False])})
         check_unmutated(k)
